@@ -25,9 +25,19 @@ def make_settings(max_examples, shrink=False, stateful_step_count=None):
     return settings(**kw)
 
 
+flaky_events = []      # legs cut short because data generation depended on the history of the code under test
+
+
 def explore(strategy, fn, max_examples, seed):
     """Run fn(case) on max_examples generated cases; fn must not raise for
-    property violations (it records them)."""
+    property violations (it records them).
+
+    When the code under test draws from Hypothesis (tape mode) and its draws
+    depend on state that leaks from earlier cases, Hypothesis stops the leg
+    with FlakyStrategyDefinition.  That is not a harness error: the leg is cut
+    short (counted in the evidence as `hypothesis_flaky_generation`), the
+    other legs of the shard still run, and a shard with too few cases makes
+    the whole check inconclusive as usual."""
     count = [0]
 
     @hypothesis.seed(seed)
@@ -36,7 +46,10 @@ def explore(strategy, fn, max_examples, seed):
     def run(case):
         count[0] += 1
         fn(case)
-    run()
+    try:
+        run()
+    except (hypothesis.errors.FlakyStrategyDefinition, hypothesis.errors.Flaky) as e:
+        flaky_events.append('%s after %d cases' % (type(e).__name__, count[0]))
     return count[0]
 
 
